@@ -27,55 +27,55 @@ func specSameExcept(k, old Key, lo, hi int) bool {
 	return vs.Forall(0, lo, func(i int) bool { return k[i] == old[i] }) && vs.Forall(hi, 24, func(i int) bool { return k[i] == old[i] })
 }
 
-//@ verify (Key).Salt pre=pre_Key post=post_Salt props=C03
+// @ verify (Key).Salt pre=pre_Key post=post_Salt props=C03
 func post_Salt(k Key, res0 uint16) bool { return res0 == specBE16(k, 0) }
 
-//@ verify (Key).SetSalt pre=pre_Key post=post_SetSalt props=C03,C11
+// @ verify (Key).SetSalt pre=pre_Key post=post_SetSalt props=C03,C11
 func post_SetSalt(k Key, value uint16, old_k Key) bool {
 	return specBE16(k, 0) == value && specSameExcept(k, old_k, 0, 2)
 }
 
-//@ verify (Key).Master pre=pre_Key post=post_Master props=C03,C11
+// @ verify (Key).Master pre=pre_Key post=post_Master props=C03,C11
 func post_Master(k Key, res0 uint16) bool { return res0 == specBE16(k, 2) }
 
-//@ verify (Key).SetMaster pre=pre_Key post=post_SetMaster props=C03,C11
+// @ verify (Key).SetMaster pre=pre_Key post=post_SetMaster props=C03,C11
 func post_SetMaster(k Key, value uint16, old_k Key) bool {
 	return specBE16(k, 2) == value && specSameExcept(k, old_k, 2, 4)
 }
 
-//@ verify (Key).Contract pre=pre_Key post=post_Contract props=C03,C11,C12
+// @ verify (Key).Contract pre=pre_Key post=post_Contract props=C03,C11,C12
 func post_Contract(k Key, res0 uint32) bool { return res0 == specBE32(k, 4) }
 
-//@ verify (Key).SetContract pre=pre_Key post=post_SetContract props=C03,C11
+// @ verify (Key).SetContract pre=pre_Key post=post_SetContract props=C03,C11
 func post_SetContract(k Key, value uint32, old_k Key) bool {
 	return specBE32(k, 4) == value && specSameExcept(k, old_k, 4, 8)
 }
 
-//@ verify (Key).Signature pre=pre_Key post=post_Signature props=C03,C11,C12
+// @ verify (Key).Signature pre=pre_Key post=post_Signature props=C03,C11,C12
 func post_Signature(k Key, res0 uint32) bool { return res0 == specBE32(k, 8) }
 
-//@ verify (Key).SetSignature pre=pre_Key post=post_SetSignature props=C03,C11
+// @ verify (Key).SetSignature pre=pre_Key post=post_SetSignature props=C03,C11
 func post_SetSignature(k Key, value uint32, old_k Key) bool {
 	return specBE32(k, 8) == value && specSameExcept(k, old_k, 8, 12)
 }
 
-//@ verify (Key).Permissions pre=pre_Key post=post_Permissions props=C03,C11,C12
+// @ verify (Key).Permissions pre=pre_Key post=post_Permissions props=C03,C11,C12
 func post_Permissions(k Key, res0 uint8) bool { return res0 == k[15] }
 
-//@ verify (Key).SetPermissions pre=pre_Key post=post_SetPermissions props=C03,C11
+// @ verify (Key).SetPermissions pre=pre_Key post=post_SetPermissions props=C03,C11
 func post_SetPermissions(k Key, value uint8, old_k Key) bool {
 	return k[15] == value && specSameExcept(k, old_k, 15, 16)
 }
 
 // a key carries a permission exactly when every bit of the flag is set (read to subscribe, write to publish, ...)
-//@ verify (Key).HasPermission pre=pre_Key post=post_HasPermission props=C03,C11,C12
+// @ verify (Key).HasPermission pre=pre_Key post=post_HasPermission props=C03,C11,C12
 func post_HasPermission(k Key, flag uint8, res0 bool) bool { return res0 == (k[15]&flag == flag) }
 
 // a master key is one whose permission byte is exactly AllowMaster
-//@ verify (Key).IsMaster pre=pre_Key post=post_IsMaster props=C03,C11
+// @ verify (Key).IsMaster pre=pre_Key post=post_IsMaster props=C03,C11
 func post_IsMaster(k Key, res0 bool) bool { return res0 == (k[15] == AllowMaster) }
 
-//@ verify (Key).SetPermission pre=pre_Key post=post_SetPermission props=C03,C11
+// @ verify (Key).SetPermission pre=pre_Key post=post_SetPermission props=C03,C11
 func post_SetPermission(k Key, flag uint8, value bool, old_k Key) bool {
 	want := old_k[15] &^ flag
 	if value {
@@ -84,7 +84,7 @@ func post_SetPermission(k Key, flag uint8, value bool, old_k Key) bool {
 	return k[15] == want && specSameExcept(k, old_k, 15, 16)
 }
 
-//@ verify (Key).IsEmpty post=post_IsEmpty props=C03
+// @ verify (Key).IsEmpty post=post_IsEmpty props=C03
 func post_IsEmpty(k Key, res0 bool) bool { return res0 == (len(k) == 0) }
 
 // ---------------------------------------------------------------------------------------------------------
@@ -92,12 +92,14 @@ func post_IsEmpty(k Key, res0 bool) bool { return res0 == (len(k) == 0) }
 // change. (The string functions underneath - Split, Join, TrimRight, HasSuffix - are outside the verified code;
 // what the resulting bit path means for a request is the subject of ValidateChannel, not decided here.)
 
-//@ assume strings.Split iface post=post_strings_Split
+// @ assume strings.Split iface post=post_strings_Split
 func post_strings_Split(res0 []string) bool { return len(res0) >= 1 }
 
-//@ verify (Key).SetTarget pre=pre_Key post=post_SetTarget props=C03,C11 modular modifies=k
-//@ loop (Key).SetTarget 0 inv inv_SetTarget
-func inv_SetTarget(rangeindex int, parts []string) bool { return -1 <= rangeindex && rangeindex < len(parts) && len(parts) <= 23 }
+// @ verify (Key).SetTarget pre=pre_Key post=post_SetTarget props=C03,C11 modular modifies=k
+// @ loop (Key).SetTarget 0 inv inv_SetTarget
+func inv_SetTarget(rangeindex int, parts []string) bool {
+	return -1 <= rangeindex && rangeindex < len(parts) && len(parts) <= 23
+}
 func post_SetTarget(k Key, old_k Key, res0 error) bool {
 	if res0 != nil {
 		return specSameExcept(k, old_k, 0, 0)
@@ -117,7 +119,7 @@ func post_SetTarget(k Key, old_k Key, res0 error) bool {
 func specTargetPath(k Key) uint32 { return uint32(k[12])<<16 | uint32(k[13])<<8 | uint32(k[14]) }
 
 // specTargetDepth is the number of levels of the target: 23 minus the index of the lowest set literal bit (0 = none)
-//@ loop specTargetDepth 0 unroll 23
+// @ loop specTargetDepth 0 unroll 23
 func specTargetDepth(tp uint32) int {
 	for i := 0; i < 23; i++ {
 		if (tp>>uint(i))&1 == 1 {
@@ -130,10 +132,12 @@ func specTargetDepth(tp uint32) int {
 //@ assume strings.Join iface
 //@ assume github.com/kelindar/binary.ToString iface
 
-//@ verify (Key).ValidateChannel pre=pre_ValidateChannel post=post_ValidateChannel_depth,post_ValidateChannel_plus,post_ValidateChannel_hash,post_ValidateChannel_complete,post_ValidateChannel_nobypass,post_ValidateChannel_legacy props=C03
-//@ loop (Key).ValidateChannel 0 inv inv_ValidateChannel_depth
-//@ loop (Key).ValidateChannel 1 inv inv_ValidateChannel_idx,inv_ValidateChannel_wc,inv_ValidateChannel modifies=parts
-func pre_ValidateChannel(k Key, ch *Channel) bool { return len(k) == 24 && ch != nil && len(ch.Query) >= 1 }
+// @ verify (Key).ValidateChannel pre=pre_ValidateChannel post=post_ValidateChannel_depth,post_ValidateChannel_plus,post_ValidateChannel_hash,post_ValidateChannel_complete,post_ValidateChannel_nobypass,post_ValidateChannel_legacy props=C03
+// @ loop (Key).ValidateChannel 0 inv inv_ValidateChannel_depth
+// @ loop (Key).ValidateChannel 1 inv inv_ValidateChannel_idx,inv_ValidateChannel_wc,inv_ValidateChannel modifies=parts
+func pre_ValidateChannel(k Key, ch *Channel) bool {
+	return len(k) == 24 && ch != nil && len(ch.Query) >= 1
+}
 
 // specLiteral: level idx of the target is a literal (not '+')
 func specLiteral(tp uint32, idx int) bool { return idx <= 22 && (tp>>(22-uint32(idx)))&1 == 1 }
@@ -141,6 +145,7 @@ func specLiteral(tp uint32, idx int) bool { return idx <= 22 && (tp>>(22-uint32(
 func inv_ValidateChannel_idx(rangeindex int, parts []string) bool {
 	return -1 <= rangeindex && rangeindex < len(parts)
 }
+
 // the scan for the lowest literal bit: nothing found below bit i so far
 func inv_ValidateChannel_depth(i uint32, maxDepth int, targetPath uint32) bool {
 	return i <= 23 && maxDepth == 0 && targetPath&((1<<i)-1) == 0
@@ -211,8 +216,8 @@ func post_ValidateChannel_complete(k Key, ch *Channel, res0 bool) bool { // and 
 // string and TERMINATING (each loop has a variant that strictly decreases) - so one packet cannot hang the
 // connection goroutine or make the option list grow without bound.
 
-//@ verify (*Channel).parseKey pre=pre_Channel post=post_parseKey props=C09,C02
-//@ loop (*Channel).parseKey 0 inv inv_parseKey decreases=var_parseKey modifies=*
+// @ verify (*Channel).parseKey pre=pre_Channel post=post_parseKey props=C09,C02
+// @ loop (*Channel).parseKey 0 inv inv_parseKey decreases=var_parseKey modifies=*
 func pre_Channel(c *Channel) bool { return c != nil }
 func inv_parseKey(i int, text []byte) bool {
 	return 0 <= i && i <= len(text) && vs.Forall(0, i, func(j int) bool { return text[j] != '/' })
@@ -224,8 +229,8 @@ func post_parseKey(c *Channel, text []byte, res0 int, res1 bool) bool {
 		vs.Forall(0, res0-1, func(j int) bool { return text[j] != '/' }))
 }
 
-//@ verify (*Channel).parseChannel pre=pre_Channel post=post_parseChannel props=C09,C02
-//@ loop (*Channel).parseChannel 0 inv inv_parseChannel decreases=var_parseChannel modifies=*
+// @ verify (*Channel).parseChannel pre=pre_Channel post=post_parseChannel props=C09,C02
+// @ loop (*Channel).parseChannel 0 inv inv_parseChannel decreases=var_parseChannel modifies=*
 func inv_parseChannel(i int, length int, offset int, text []byte) bool {
 	return 0 <= i && i <= length && length == len(text) && 0 <= offset && offset <= i
 }
@@ -235,14 +240,14 @@ func post_parseChannel(c *Channel, text []byte, res0 int) bool {
 	return c.ChannelType == ChannelInvalid || (len(c.Channel) >= 1 && len(c.Channel) <= len(text) && 0 <= res0 && res0 <= len(text)+1)
 }
 
-//@ verify (*Channel).parseOptions pre=pre_Channel props=C09
-//@ loop (*Channel).parseOptions 0 inv inv_parseOptions decreases=var_parseOptions modifies=*
-//@ loop (*Channel).parseOptions 1 inv inv_parseOptions_key decreases=var_parseOptions_j modifies=*
-//@ loop (*Channel).parseOptions 2 inv inv_parseOptions_val decreases=var_parseOptions_j modifies=*
+// @ verify (*Channel).parseOptions pre=pre_Channel props=C09
+// @ loop (*Channel).parseOptions 0 inv inv_parseOptions decreases=var_parseOptions modifies=*
+// @ loop (*Channel).parseOptions 1 inv inv_parseOptions_key decreases=var_parseOptions_j modifies=*
+// @ loop (*Channel).parseOptions 2 inv inv_parseOptions_val decreases=var_parseOptions_j modifies=*
 func inv_parseOptions(i, j, length int, text, key, val []byte) bool {
 	return 0 <= i && i == j && j <= length && length == len(text) && len(key) == 0 && len(val) == 0
 }
-func var_parseOptions(i, length int) int { return length - i }
+func var_parseOptions(i, length int) int   { return length - i }
 func var_parseOptions_j(j, length int) int { return length - j }
 func inv_parseOptions_key(i, j, length int, text, key, val []byte, head0_i int) bool {
 	// scanning for '=': nothing has been consumed yet
